@@ -583,4 +583,11 @@ def view_pure(ctx):
     return res
 
 
-RULES = [view_pure, c03_launch_guards, inputs_converted, c01_setters, c01_init_stores, derived_sync_rule, no_stale, newton_batch, pure, inverted_fresh, no_param_mutation, reset_first, rng_sites]
+
+def c07_w_flow(ctx):
+    """shared with C07: the wavelength of a ray is used per ray (the result
+    for one ray does not depend on which other rays share the call)"""
+    from .C07 import w_flow as _r
+    return _r(ctx)
+
+RULES = [c07_w_flow, view_pure, c03_launch_guards, inputs_converted, c01_setters, c01_init_stores, derived_sync_rule, no_stale, newton_batch, pure, inverted_fresh, no_param_mutation, reset_first, rng_sites]
